@@ -21,3 +21,5 @@ more.register(globals(), {"C03"}, ["par3_mixed", "map_iter_catch", "map_fail_bat
 more.register(globals(), {"C03"}, ["branch_retry_kinds", "late_nested"], {"branch_retry_kinds": [("_ok", "not bfail"), ("_fail", "bfail")], "late_nested": [("_ok", "not bfail"), ("_fail", "bfail")]})
 
 globals()["nested_inner_catch_retry_task"]._vf.tiers = ("thorough",)   # 1665 schedules: quick tier runs it under C06 only
+
+more.register(globals(), {"C03"}, ["map_in_map"], {"map_in_map": [("_o%d" % k, "omc == %d" % k) for k in range(3)]})
